@@ -394,3 +394,222 @@ func reachesAppendFirst(b *ssa.BasicBlock, appendBlocks map[*ssa.BasicBlock]bool
 }
 
 var emptyStringConst = ssa.NewConst(constant.MakeString(""), types.Typ[types.String])
+
+// ---------------------------------------------------------------------------------------------
+// simCmpGeneric — the interprocedural sibling of simulateDateCmp / simTimeCmp: runs f, whose
+// parameters stand for two objects a (side +1) and b (side −1) or for keys read from them, under
+// the assumption sign[name] = sgn(key_name(a) − key_name(b)) for every key name. Keys are the
+// accessor calls / own fields named in sign, and "offset" for MidnightOffset().InMinutes(). A
+// call of a module function is run the same way with its parameters bound to the objects or keys
+// it is handed (a three-way compareTo, a compareInts(x, y int)). The result is a bool (1/0) or an
+// int; ok=false when anything else decides.
+type cmpSym struct {
+	obj  bool // the object itself; otherwise a key read from it
+	side int
+	name string
+}
+
+func simCmpGeneric(f *ssa.Function, env map[ssa.Value]cmpSym, sign map[string]int, depth int) (int64, bool) {
+	if depth > 4 || f == nil || len(f.Blocks) == 0 {
+		return 0, false
+	}
+	unwrap := func(v ssa.Value) ssa.Value {
+		for i := 0; i < 6; i++ {
+			switch x := v.(type) {
+			case *ssa.MakeInterface:
+				v = x.X
+			case *ssa.ChangeInterface:
+				v = x.X
+			case *ssa.ChangeType:
+				v = x.X
+			default:
+				return v
+			}
+		}
+		return v
+	}
+	objOf := func(v ssa.Value) (cmpSym, bool) {
+		s, ok := env[unwrap(v)]
+		return s, ok && s.obj
+	}
+	var keyOf func(v ssa.Value) (cmpSym, bool)
+	keyOf = func(v ssa.Value) (cmpSym, bool) {
+		v = unwrap(v)
+		if s, ok := env[v]; ok && !s.obj {
+			return s, true
+		}
+		switch x := v.(type) {
+		case *ssa.Call:
+			n, recv, args, _ := methodCallOf(x)
+			if recv == nil || len(args) != 0 {
+				return cmpSym{}, false
+			}
+			if o, ok := objOf(recv); ok {
+				if _, known := sign[n]; known {
+					return cmpSym{false, o.side, n}, true
+				}
+			}
+			// a.MidnightOffset().InMinutes()
+			if n == "InMinutes" {
+				if c2, ok := recv.(*ssa.Call); ok {
+					n2, recv2, args2, _ := methodCallOf(c2)
+					if n2 == "MidnightOffset" && len(args2) == 0 && recv2 != nil {
+						if o, ok := objOf(recv2); ok {
+							if _, known := sign["offset"]; known {
+								return cmpSym{false, o.side, "offset"}, true
+							}
+						}
+					}
+				}
+			}
+		case *ssa.UnOp:
+			if x.Op == token.MUL {
+				if fa, ok := x.X.(*ssa.FieldAddr); ok {
+					if o, ok := objOf(fa.X); ok {
+						acc := map[string]string{"year": "Year", "month": "Month", "day": "Day"}[fieldName(fa)]
+						if _, known := sign[acc]; known && acc != "" {
+							return cmpSym{false, o.side, acc}, true
+						}
+					}
+				}
+			}
+		}
+		return cmpSym{}, false
+	}
+	phiVal := map[*ssa.Phi]ssa.Value{}
+	var eval func(v ssa.Value, d int) (int64, bool)
+	eval = func(v ssa.Value, d int) (int64, bool) {
+		if d > 10 {
+			return 0, false
+		}
+		if bv, isB := constBool(v); isB {
+			if bv {
+				return 1, true
+			}
+			return 0, true
+		}
+		if k, isK := constInt(v); isK {
+			return k, true
+		}
+		switch x := v.(type) {
+		case *ssa.UnOp:
+			switch x.Op {
+			case token.NOT:
+				y, ok := eval(x.X, d+1)
+				return 1 - y, ok
+			case token.SUB:
+				y, ok := eval(x.X, d+1)
+				return -y, ok
+			}
+		case *ssa.Phi:
+			if e, known := phiVal[x]; known {
+				return eval(e, d+1)
+			}
+		case *ssa.Call:
+			g := rawStaticCallee(x)
+			if g == nil || gp == nil || !gp.inMod(g) || len(g.Blocks) == 0 {
+				return 0, false
+			}
+			if _, isKey := keyOf(x); isKey {
+				return 0, false // a key on its own has no value
+			}
+			sub := map[ssa.Value]cmpSym{}
+			bound := 0
+			for i, arg := range x.Call.Args {
+				if i >= len(g.Params) {
+					break
+				}
+				if o, ok := objOf(arg); ok {
+					sub[g.Params[i]] = o
+					bound++
+				} else if k, ok := keyOf(arg); ok {
+					sub[g.Params[i]] = k
+					bound++
+				}
+			}
+			if bound < 2 {
+				return 0, false
+			}
+			return simCmpGeneric(g, sub, sign, depth+1)
+		case *ssa.BinOp:
+			var l, rr int64
+			ka, okA := keyOf(x.X)
+			kb, okB := keyOf(x.Y)
+			if okA && okB {
+				if ka.name != kb.name || ka.side == kb.side {
+					return 0, false
+				}
+				l, rr = int64(sign[ka.name]*ka.side), 0
+			} else if okA || okB {
+				return 0, false // a key against something that is not the other object's key
+			} else {
+				var ok1, ok2 bool
+				l, ok1 = eval(x.X, d+1)
+				rr, ok2 = eval(x.Y, d+1)
+				if !ok1 || !ok2 {
+					return 0, false
+				}
+			}
+			res := false
+			switch x.Op {
+			case token.EQL:
+				res = l == rr
+			case token.NEQ:
+				res = l != rr
+			case token.LSS:
+				res = l < rr
+			case token.LEQ:
+				res = l <= rr
+			case token.GTR:
+				res = l > rr
+			case token.GEQ:
+				res = l >= rr
+			default:
+				return 0, false
+			}
+			if res {
+				return 1, true
+			}
+			return 0, true
+		}
+		return 0, false
+	}
+	cur := f.Blocks[0]
+	var prev *ssa.BasicBlock
+	for steps := 0; steps < 64; steps++ {
+		for _, in := range cur.Instrs {
+			ph, isPhi := in.(*ssa.Phi)
+			if !isPhi {
+				break
+			}
+			for i, pb := range cur.Preds {
+				if pb == prev {
+					phiVal[ph] = ph.Edges[i]
+				}
+			}
+		}
+		switch t := cur.Instrs[len(cur.Instrs)-1].(type) {
+		case *ssa.Return:
+			if len(t.Results) != 1 {
+				return 0, false
+			}
+			return eval(t.Results[0], 0)
+		case *ssa.If:
+			c, ok := eval(t.Cond, 0)
+			if !ok {
+				return 0, false
+			}
+			prev = cur
+			if c != 0 {
+				cur = cur.Succs[0]
+			} else {
+				cur = cur.Succs[1]
+			}
+		case *ssa.Jump:
+			prev, cur = cur, cur.Succs[0]
+		default:
+			return 0, false
+		}
+	}
+	return 0, false
+}
